@@ -1,6 +1,6 @@
 use std::sync::LazyLock;
 
-use bigdecimal::{BigDecimal, FromPrimitive, One, Signed, ToPrimitive, Zero};
+use bigdecimal::{BigDecimal, FromPrimitive, One, RoundingMode, Signed, ToPrimitive, Zero};
 use num_bigint::BigInt;
 
 #[derive(Clone, Debug)]
@@ -146,7 +146,7 @@ impl SparqlNumber {
         match self {
             SparqlNumber::NativeInt(inner) => (*inner).into(),
             SparqlNumber::BigInt(inner) => inner.clone().into(),
-            SparqlNumber::Decimal(inner) => (inner.to_ref() + DEC_0_5.to_ref()).round(0).into(),
+            SparqlNumber::Decimal(inner) => inner.with_scale_round(0, RoundingMode::Ceiling).into(),
             SparqlNumber::Float(inner) => inner.ceil().into(),
             SparqlNumber::Double(inner) => inner.ceil().into(),
         }
@@ -156,7 +156,7 @@ impl SparqlNumber {
         match self {
             SparqlNumber::NativeInt(inner) => (*inner).into(),
             SparqlNumber::BigInt(inner) => inner.clone().into(),
-            SparqlNumber::Decimal(inner) => (inner.to_ref() - DEC_0_5.to_ref()).round(0).into(),
+            SparqlNumber::Decimal(inner) => inner.with_scale_round(0, RoundingMode::Floor).into(),
             SparqlNumber::Float(inner) => inner.floor().into(),
             SparqlNumber::Double(inner) => inner.floor().into(),
         }
@@ -166,9 +166,19 @@ impl SparqlNumber {
         match self {
             SparqlNumber::NativeInt(inner) => (*inner).into(),
             SparqlNumber::BigInt(inner) => inner.clone().into(),
-            SparqlNumber::Decimal(inner) => inner.round(0).into(),
-            SparqlNumber::Float(inner) => inner.round().into(),
-            SparqlNumber::Double(inner) => inner.round().into(),
+            // NB: fn:round rounds half towards positive infinity
+            // (BigDecimal::round rounds half to even, f64::round rounds half away from zero)
+            SparqlNumber::Decimal(inner) => (inner.to_ref() + DEC_0_5.to_ref())
+                .with_scale_round(0, RoundingMode::Floor)
+                .into(),
+            SparqlNumber::Float(inner) => {
+                let r = inner.round();
+                if inner - r == 0.5 { r + 1.0 } else { r }.into()
+            }
+            SparqlNumber::Double(inner) => {
+                let r = inner.round();
+                if inner - r == 0.5 { r + 1.0 } else { r }.into()
+            }
         }
     }
 
